@@ -285,8 +285,9 @@ def fault_terms(out):
 
     def cf(c):
         return cfgs(canon_cfg(c)) if isinstance(c, list) else 999999
-    return "[%s]" % "; ".join("mkFStep %s %s %s %s %d %d" % (bool_lit(r["op"] == "restart"), bool_lit("fsize" in r), ff(r["file_before"]),
-                                                            ff(r["file_after"]), cf(r["cfg_before"]), cf(r["cfg_after"])) for r in out["steps"])
+    return "[%s]" % "; ".join("mkFStep %s %s %s %s %d %d [%s]" % (bool_lit(r["op"] == "restart"), bool_lit("fsize" in r), ff(r["file_before"]),
+                                                                 ff(r["file_after"]), cf(r["cfg_before"]), cf(r["cfg_after"]),
+                                                                 "; ".join(ff(x) for x in r.get("during") or [])) for r in out["steps"])
 
 
 def fault_check(work, outs):
